@@ -24,7 +24,33 @@ func checkMatchesSubject(r *Run, prog *Program, a *Anchors, pfx string) {
 		if pv == nil {
 			continue
 		}
-		for _, sm := range ps.Run(m) {
+		sums := ps.Run(m)
+		applies := false
+		for _, sm := range sums {
+			for _, ev := range sm.Events() {
+				if ev.Instr != nil && ev.Callee != nil && ev.Callee.Pkg != nil && ev.Callee.Pkg.Pkg.Path() == "regexp" && ev.Callee.Signature.Recv() != nil && strings.HasPrefix(ev.Callee.Name(), "Match") {
+					applies = true
+				}
+			}
+		}
+		if applies {
+			// the matcher of `matches`: whatever it answers without an error is the verdict of the regular expression
+			// itself — one Match call, its result returned as it is (no shortcut that answers in its place)
+			for _, sm := range sums {
+				if sm.Ret == nil || len(sm.Results) != 2 || errClass(sm, sm.Results[1]) != "nil" {
+					continue
+				}
+				var verdicts []Event
+				for _, ev := range sm.Events() {
+					if ev.Instr != nil && ev.Callee != nil && ev.Callee.Pkg != nil && ev.Callee.Pkg.Pkg.Path() == "regexp" && ev.Callee.Signature.Recv() != nil && strings.HasPrefix(ev.Callee.Name(), "Match") {
+						verdicts = append(verdicts, ev)
+					}
+				}
+				okV := len(verdicts) == 1 && verdicts[0].Res != nil && sm.Results[0].Key() == verdicts[0].Res.Key()
+				r.Check(pfx+".matches-subject", m.Name()+":verdict", prog.pos(sm.Ret.Pos()), okV, "a result without an error must be what the regular expression's Match returned for the value's bytes; this path returns "+shortKey(sm.Results[0])+" [path "+strings.Join(sm.St.trail, " ")+"]")
+			}
+		}
+		for _, sm := range sums {
 			for _, ev := range sm.Events() {
 				if ev.Instr == nil || ev.Callee == nil || ev.Callee.Pkg == nil || ev.Callee.Pkg.Pkg.Path() != "regexp" || ev.Callee.Signature.Recv() == nil {
 					continue
